@@ -16,7 +16,8 @@ def run(ctx):
     ents = [1, 2, 3, 4, 5] if ctx.quick() else list(ring.ENTRIES)
     ring.run_entries(ctx, ents, ['sse_t1'] if ctx.quick() else ['sse_t1', 'avx512_t1'], timeout=1500 if ctx.quick() else 3600, desc=True)
     l1.run_k1(ctx)
-    from props import asm_hmac
+    from props import asm_hmac, jobwrite
+    jobwrite.run(ctx)                   # every .asm routine with an IMB_JOB* parameter: descriptor bytes other than status unchanged on every path
     asm_hmac.run_family(ctx, PROP)      # descriptor write set / status of the HMAC managers (machine code)
     ctx.samples.append('for ALL int e: imb_get_strerror(e) != NULL; IMB_ERR_MIN<e<IMB_ERR_MAX => a library message, listed once in imb_errno_types[]')
     ctx.samples.append('any ring state, any stale errno: SUBMIT_JOB leaves errno 0 on success / the validator code on rejection; every caller-owned field of every ring job unchanged')
